@@ -1,7 +1,7 @@
 (* C03 — Delete/Erase/Slice remove exactly the requested residues and features
    follow.  Delete maps every location through Expand(i, -n); Slice through
    Expand(end, end-len) then Expand(0, -start). *)
-From GTS Require Import Base Arith Loc Seq BaseLemmas LocProofs EditProofs SeqProofs JoinDen JoinLift UndoProofs.
+From GTS Require Import Base Arith Loc Seq BaseLemmas LocProofs EditProofs SeqProofs JoinDen JoinLift UndoProofs RotateProofs RotateJoin InsertSeq Region RegionProofs ResizeProofs SplitConcat SliceSeq.
 Open Scope Z_scope.
 
 (* residues: seq[:i] + seq[i+n:] *)
@@ -93,3 +93,83 @@ Theorem C03_references_renumbered : forall mol start end_ refs rs,
   refs_slice mol start end_ refs = Ok rs -> map r_number rs = zrange 1 (1 + zlen rs).
 Proof. exact refs_slice_numbered. Qed.
 Print Assumptions C03_references_renumbered.
+
+(* Whole records.  Delete of [off, off+len): whenever every location is free of
+   the K1 shapes after Expand(off,-len) and the operation returns a location
+   (del_ok; true of every join-free location by the theorem above), the call
+   succeeds, the residues are seq[:off] + seq[off+len:], the table keeps its
+   order and every feature its key and qualifiers (relocate), and every
+   feature denotes its former residues minus the removed ones, re-based. *)
+Theorem C03_delete_record : forall s off len, 0 <= off -> 0 < len -> off + len <= zlen (residues s) ->
+  Forall (del_ok off len) (feats s) ->
+  exists ls, seq_delete s off len =
+      Ok (mkseq (relocate (feats s) ls)
+                (firstn (Z.to_nat off) (residues s) ++ skipn (Z.to_nat (off + len)) (residues s))) /\
+    Forall2 (fun f l => deq (den l) (del_den off len (den (floc f)))) (feats s) ls.
+Proof. exact seq_delete_features. Qed.
+Print Assumptions C03_delete_record.
+
+Example C03_record_hypotheses_met :
+  let s := mkseq [mkfeat [115] (Ranged 0 9 false false) [];
+                  mkfeat [103] (Complemented (Joined [Ranged 1 3 true false; Ranged 4 7 false false])) [];
+                  mkfeat [112] (Point 5) []] [97; 99; 103; 116; 97; 99; 103; 116; 97] in
+  Forall (del_ok 2 4) (feats s) /\
+  seq_delete s 2 4 =
+    Ok (mkseq [mkfeat [115] (Ranged 0 5 false false) [];
+               mkfeat [103] (Complemented (Ranged 1 3 true false)) [];
+               mkfeat [112] (Between 2) []] [97; 99; 103; 116; 97]).
+Proof.
+  cbv zeta. cbn [feats].
+  repeat match goal with
+  | |- _ /\ _ => split
+  | |- Forall _ (_ :: _) => constructor
+  | |- Forall _ [] => constructor
+  | |- del_ok _ _ _ => split
+  | |- k1_after _ _ => apply k1_afterb_spec; vm_compute; reflexivity
+  | |- exists _, _ => eexists; vm_compute; reflexivity
+  end.
+  vm_compute. reflexivity.
+Qed.
+
+(* Erase: the same on the table without the features that lie within the
+   removed stretch (a feature that lost all residues is dropped); source
+   features always stay. *)
+Theorem C03_erase_record : forall s off len, 0 <= off -> 0 < len -> off + len <= zlen (residues s) ->
+  Forall (del_ok off len) (filter (erase_keep off len) (feats s)) ->
+  exists ls, seq_erase s off len =
+      Ok (mkseq (relocate (filter (erase_keep off len) (feats s)) ls)
+                (firstn (Z.to_nat off) (residues s) ++ skipn (Z.to_nat (off + len)) (residues s))) /\
+    Forall2 (fun f l => deq (den l) (del_den off len (den (floc f)))) (filter (erase_keep off len) (feats s)) ls.
+Proof. exact seq_erase_features. Qed.
+Print Assumptions C03_erase_record.
+
+(* Slice [s,e) with 0 <= s <= e <= L of a record whose locations hold no
+   join(...) and lie inside the sequence: the call succeeds; the residues are
+   exactly the window; the table holds exactly the features that overlap the
+   window (the others are dropped), in their order, key and qualifiers
+   unchanged; and every one of them denotes exactly its former residues inside
+   the window, re-based to 0, same order and strand -- so no location refers
+   to a residue outside the new sequence.  (Source features are made complete,
+   which does not change what they denote.)
+   PARTIAL: join(...) in the input and the wrap-around window by correspondence. *)
+Theorem C03_slice_record_partial : forall sq s e, let L := zlen (residues sq) in 0 <= s <= e -> e <= L ->
+  Forall (slice_ok L) (feats sq) ->
+  let kept := filter (fun g => loc_overlap (floc g) s e) (feats sq) in
+  exists ls, seq_slice sq s e = Ok (mkseq (relocate kept ls) (lslice s e (residues sq))) /\
+    Forall2 (fun f l => den l = map (onpos (fun x => x - s)) (filter (inwin (s, e)) (den (floc f)))) kept ls.
+Proof. exact seq_slice_features. Qed.
+Print Assumptions C03_slice_record_partial.
+
+Example C03_slice_record_hypotheses_met :
+  let sq := mkseq [mkfeat [115; 111; 117; 114; 99; 101] (Ranged 0 9 false false) [];
+                   mkfeat [103] (Complemented (Ordered [Ranged 6 9 true false; Ranged 1 4 false false])) [];
+                   mkfeat [112] (Point 1) []] [97; 99; 103; 116; 97; 99; 103; 116; 97] in
+  Forall (slice_ok 9) (feats sq) /\
+  seq_slice sq 3 7 =
+    Ok (mkseq [mkfeat [115; 111; 117; 114; 99; 101] (Ranged 0 4 false false) [];
+               mkfeat [103] (Complemented (Ordered [Ranged 3 4 true true; Ranged 0 1 true false])) []]
+              [116; 97; 99; 103]).
+Proof.
+  cbv zeta. cbn [feats]. split; [|vm_compute; reflexivity].
+  repeat constructor; cbn; lia.
+Qed.
